@@ -19,7 +19,7 @@ class DecodeError(Exception):
 
 # ------------------------------------------------------------------ spellings (own statements of the formats)
 AUTO_ESC = {'(': '-LRB-', ')': '-RRB-', '{': '-LCB-', '}': '-RCB-', '[': '-LSB-', ']': '-RSB-'}
-JA_NORM = {'-LRB-': '(', '-RRB-': ')', '-LCB-': '{', '-RCB-': '}', '-LSB-': '[', '-RSB-': ']'}
+JA_NORM = {'-LRB-': '(', '-RRB-': ')', '-LSB-': '[', '-RSB-': ']'}   # (curly brackets delimit the format's nodes: their escapes stay)
 
 
 def auto_word(w):
@@ -109,16 +109,16 @@ def heads_of(d):
 def split_records(text, conll=False):
     """[(sentence_index, [lines])] in file order"""
     out = []
-    pat = re.compile(r'^# ID=(\d+)$' if conll else r'^ID=(\d+), log probability=(\S+)$')
+    # (a header names the sentence number first; whatever else it carries — rank, score — is not derivation content)
+    pat = re.compile(r'^# ID=(\d+)\b.*$' if conll else r'^ID=(\d+)\b.*$')
     lines = text.split('\n')
     i = 0
     while i < len(lines):
         m = pat.match(lines[i])
         if m:
             if conll:
-                if i + 1 >= len(lines) or not lines[i + 1].startswith('# log probability='):
-                    raise DecodeError('conll header without probability line')
-                i += 1
+                while i + 1 < len(lines) and lines[i + 1].startswith('#') and not pat.match(lines[i + 1]):
+                    i += 1              # further comment lines of the header
             out.append((int(m.group(1)), []))
         elif out:
             out[-1][1].append(lines[i])
@@ -199,8 +199,9 @@ def decode_conll(text):
                 raise DecodeError(f'conll line with {len(cols)} columns')
             if cols[0] != str(k + 1):
                 raise DecodeError('token numbering')
-            if cols[3] != cols[4] or cols[5] != '_' or cols[8] != '_':
-                raise DecodeError('fixed columns')
+            if cols[3] != cols[4]:
+                raise DecodeError('the two part-of-speech columns differ')
+            # (FEATS and DEPREL carry nothing of the derivation: whatever stands there is accepted)
             rows.append({'word': cols[1], 'lemma': cols[2], 'pos': cols[3], 'head': int(cols[6]), 'cat': cols[7]})
             frags.append(cols[9])
         tree = _auto_tree(' '.join(frags), False)
@@ -216,7 +217,7 @@ def _json_cat(c):
             t = _json_cat(x)
             return '(' + t + ')' if 'slash' in x else t
         return w(c['left']) + c['slash'] + w(c['right'])
-    f = c['feature']
+    f = c.get('feature')
     return c['base'] + (f'[{f}]' if f else '')
 
 
@@ -276,13 +277,15 @@ def decode_jigg(text_or_root):
         toks = {}
         order = []
         for k, tk in enumerate(sent.xpath('./tokens/token')):
-            if tk.get('id') != f's{si}_{k}' or tk.get('start') != str(k):
+            # ids are references: unique within the sentence, whatever their spelling; `start` is the position
+            if tk.get('id') is None or tk.get('id') in toks or (tk.get('start') is not None and tk.get('start') != str(k)):
                 raise DecodeError(f'token id/start {tk.get("id")}/{tk.get("start")} at position {k} of sentence {si}')
             toks[tk.get('id')] = tk
             order.append(tk.get('id'))
+        ccg_ids = [c.get('id') for c in sent.xpath('./ccg')]
+        if None in ccg_ids or len(set(ccg_ids)) != len(ccg_ids):
+            raise DecodeError(f'ccg ids {ccg_ids}')
         for ti, ccg in enumerate(sent.xpath('./ccg')):
-            if ccg.get('id') != f's{si}_ccg{ti}':
-                raise DecodeError(f'ccg id {ccg.get("id")}')
             spans = {sp.get('id'): sp for sp in ccg.xpath('./span')}
 
             def rec(sp):
@@ -309,8 +312,8 @@ def decode_jigg(text_or_root):
                 return ('T', sp.get('category'), sp.get('rule'), None, tuple(kids)), b, e
             if ccg.get('root') not in spans:
                 raise DecodeError('root reference')
-            if [sp.get('id') for sp in spans.values() if sp.get('root') == 'true'] != [ccg.get('root')]:
-                raise DecodeError('root flag')
+            if any(sp.get('id') != ccg.get('root') for sp in spans.values() if sp.get('root') == 'true'):
+                raise DecodeError('root flag on a span that is not the root')
             t, b, e = rec(spans[ccg.get('root')])
             if (b, e) != (0, len(order)):
                 raise DecodeError('root span does not cover the sentence')
@@ -432,7 +435,7 @@ def decode_deriv(text):
                 raise DecodeError(f'expected a rule line: {lines[i]!r}')
             left = len(m.group(1))
             right = left + len(m.group(2))
-            sym = m.group(3)
+            sym = m.group(3).strip()
             cat = lines[i + 1].strip()
             i += 2
             while leafq and leafq[0][0] < right:
@@ -461,7 +464,7 @@ def decode_html(doc):
         words_line = htmllib.unescape(parts[k + 1])
         chunk = parts[k + 2]
         ti = 0
-        for m in re.finditer(r'<p>Log prob=(\S+)</p><math xmlns="http://www.w3.org/1998/Math/MathML">(.*?)</math>',
+        for m in re.finditer(r'<p>Log prob=(\S+)</p>\s*<math\b[^>]*>(.*?)</math>',
                              chunk, re.S):
             ti += 1
             root = etree.fromstring('<math>' + m.group(2) + '</math>')
@@ -516,6 +519,10 @@ def _prolog_terms(text):
                     continue
                 raise DecodeError(f'escape sequence \\{nx} in a quoted atom')
             if c == "'":
+                if i[0] + 1 < n and text[i[0] + 1] == "'":
+                    out.append("'")         # ISO spelling of a quote inside a quoted atom
+                    i[0] += 2
+                    continue
                 i[0] += 1
                 return ''.join(out)
             out.append(c)
